@@ -65,7 +65,10 @@ SHAPES_MORE = [(24, 25)]            # 600 samples: the text writer's multi-colum
 SHAPES_THOROUGH = [(6, 7), (16, 16), (13, 45), (1, 587), (9, 2)]
 VCLASSES = ['mixed', 'pos', 'neg', 'const', 'zero', 'tiny', 'huge', 'outlier']
 NANPATS = ['none', 'corner', 'row', 'checker', 'allbut1']
+SAGS = {'sag1e7': 1e7, 'sag3.5e7': 3.5e7, 'sag3e8': 3e8}    # large sag-type maps [nm]: 10 mm .. 0.3 m (Code V only)
+VCLASSES_CV = VCLASSES + list(SAGS)
 DXS = [0.5, 0.0123]
+DXS_ZERO = [0, 0.0]                  # no lateral calibration: must come back as exactly 0
 WVLS = [0.6328, 1.55]
 
 _TALLY = collections.Counter()       # per-cut outcome classes of this process (see __main__)
@@ -111,7 +114,7 @@ def make_map(shape, vclass, pat, fmt, wavelength, seed):
     r = (np.arange(N, dtype=float) + 1.0) / N
     r[0] = 1.25                      # marked corner: the largest sample sits at [0,0]
     r = r.reshape(shape)
-    rng = np.random.default_rng([int(seed), VCLASSES.index(vclass), n0, n1])
+    rng = np.random.default_rng([int(seed), VCLASSES_CV.index(vclass), n0, n1])
     g = 1.0 + 0.25 * rng.random()    # the generic representative inside the cell
     step_z = wavelength * 1e3 / ZYGO_RES
     mask = nan_mask(shape, pat)
@@ -130,6 +133,8 @@ def make_map(shape, vclass, pat, fmt, wavelength, seed):
     elif vclass == 'huge':
         H = 0.9 * ZYGO_MAXCOUNT * step_z if fmt == 'zygo' else 1e9 * g
         a = H * (2 * r - 1.3) / 1.3
+    elif vclass in SAGS:
+        a = SAGS[vclass] * g * r / 1.25
     elif vclass == 'outlier':
         a = 0.01 * g * r
         valid = np.flatnonzero(~mask.ravel())
@@ -175,6 +180,19 @@ def _close(g, a, tol):
     with np.errstate(invalid='ignore'):
         err = np.abs(np.where(gn, 0, g) - np.where(an, 0, a))
     return bool(np.all(err <= tol))
+
+
+def unchanged(R, arr, pristine, sig, what):
+    """The caller's array after a write: same object content, bit for bit (NaN == NaN)."""
+    R.checks += 1
+    try:
+        x = np.asarray(arr)
+        ok = x.shape == pristine.shape and x.dtype == pristine.dtype and bool(np.array_equal(x, pristine, equal_nan=True))
+    except Exception:   # noqa
+        ok = False
+    if not ok:
+        R.violation(sig, f'{what}: the array handed to the writer was modified by it: before {_fmt(pristine)} after {_fmt(arr)}')
+    return ok
 
 
 def judge_map(R, got, a, tol, site, what):
@@ -256,8 +274,10 @@ def run_roundtrip(case, seed, R):
             site = 'zygo_dat:roundtrip'
             path = os.path.join(tmp, 'm.dat')
             dx = case['dx']
-            if R.call(io.write_zygo_dat, path, a.copy(), dx, wavelength=wvl, sig=f'{site}:write:exception') is FAILED:
+            a_in = a.copy()
+            if R.call(io.write_zygo_dat, path, a_in, dx, wavelength=wvl, sig=f'{site}:write:exception') is FAILED:
                 return
+            unchanged(R, a_in, a, 'zygo_dat:write:caller-array-modified', what)
             out = R.call(io.read_zygo_dat, path, sig=f'{site}:read:exception')
             if out is FAILED:
                 return
@@ -268,17 +288,24 @@ def run_roundtrip(case, seed, R):
                 R.violation(f'{site}:type', f'{what}: reader result has no phase/meta ({type(e).__name__}: {e})')
                 return
             judge_map(R, b, a, tol, site, what)
-            judge_scalar(R, rdx, dx, 16 * EPS32, f'{site}:dx', f'{what}: lateral resolution [mm]')
+            judge_scalar(R, rdx, dx, 16 * EPS32, f'{site}:dx' + (':zero' if dx == 0 else ''), f'{what}: lateral resolution [mm]')
             judge_scalar(R, rw, wvl, 16 * EPS32, f'{site}:wavelength', f'{what}: wavelength [um]')
         elif w == 'ifg':
             site = 'Interferogram.zygo_dat:roundtrip'
             path = os.path.join(tmp, 'm.dat')
             dx = case['dx']
-            i1 = R.call(Interferogram, a.copy(), dx=dx, wavelength=wvl, sig=f'{site}:construct:exception')
+            a_in = a.copy()
+            if dx == 'default':          # the constructor's default: no lateral calibration
+                i1 = R.call(Interferogram, a_in, wavelength=wvl, sig=f'{site}:construct:exception')
+                dx = 0
+            else:
+                i1 = R.call(Interferogram, a_in, dx=dx, wavelength=wvl, sig=f'{site}:construct:exception')
             if i1 is FAILED:
                 return
             if R.call(i1.save_zygo_dat, path, sig=f'{site}:write:exception') is FAILED:
                 return
+            unchanged(R, a_in, a, 'Interferogram.zygo_dat:write:caller-array-modified', what)
+            unchanged(R, getattr(i1, 'data', None), a, 'Interferogram.zygo_dat:write:data-modified', what + ' (.data of the saved object)')
             i2 = R.call(Interferogram.from_zygo_dat, path, sig=f'{site}:read:exception')
             if i2 is FAILED:
                 return
@@ -288,7 +315,7 @@ def run_roundtrip(case, seed, R):
                 R.violation(f'{site}:type', f'{what}: no data/dx/wavelength on the result ({type(e).__name__}: {e})')
                 return
             judge_map(R, b, a, tol, site, what)
-            judge_scalar(R, rdx, dx, 16 * EPS32, f'{site}:dx', f'{what}: dx [mm]')
+            judge_scalar(R, rdx, dx, 16 * EPS32, f'{site}:dx' + (':zero' if dx == 0 else ''), f'{what}: dx [mm] (written {case["dx"]!r})')
             judge_scalar(R, rw, wvl, 16 * EPS32, f'{site}:wavelength', f'{what}: wavelength [um]')
         else:
             site = 'codev_gridint:roundtrip'
@@ -296,8 +323,10 @@ def run_roundtrip(case, seed, R):
             kw = {'typ': case['typ'], 'nnb': bool(case['nnb'])}
             if case['comment'] != 'default':
                 kw['comment'] = case['comment']
-            if R.call(io.write_codev_gridint, a.copy(), path, sig=f'{site}:write:exception', **kw) is FAILED:
+            a_in = a.copy()
+            if R.call(io.write_codev_gridint, a_in, path, sig=f'{site}:write:exception', **kw) is FAILED:
                 return
+            unchanged(R, a_in, a, 'codev_gridint:write:caller-array-modified', what)
             out = R.call(io.read_codev_gridint, path, sig=f'{site}:read:exception:{shape_class(shape)}')
             if out is FAILED:
                 return
@@ -310,6 +339,129 @@ def run_roundtrip(case, seed, R):
         nt = np.isfinite(a)
         R.nontrivial(bool(np.any(a[nt] != 0)) or bool(np.any(~nt)))
         R.outcome('roundtrip')
+    finally:
+        shutil.rmtree(tmp, ignore_errors=True)
+
+
+# ---------------------------------------------------------------------------------------------
+# histories: write -> write again -> read (-> save the loaded object again)
+
+ZYGO_TIMESTAMP = slice(76, 80)       # the only header field that may differ between two saves of the same map
+
+
+def _bytes(path):
+    with open(path, 'rb') as f:
+        return f.read()
+
+
+def same_file(R, b1, b2, fmt, sig, what, header_only=False):
+    """Second file equals the first byte for byte (the Zygo timestamp field apart)."""
+    R.checks += 1
+    if fmt == 'zygo':
+        b1 = b1[:ZYGO_TIMESTAMP.start] + b'\0' * 4 + b1[ZYGO_TIMESTAMP.stop:]
+        b2 = b2[:ZYGO_TIMESTAMP.start] + b'\0' * 4 + b2[ZYGO_TIMESTAMP.stop:]
+        if header_only:
+            b1, b2 = b1[:ZYGO_HEADER], b2[:ZYGO_HEADER]
+    if b1 == b2:
+        return True
+    n = min(len(b1), len(b2))
+    first = next((i for i in range(n) if b1[i] != b2[i]), n)
+    if fmt == 'zygo':
+        where = f'header byte {first}' if first < ZYGO_HEADER else f'data word {(first - ZYGO_HEADER) // 4}'
+        detail = f'{b1[first:first + 4].hex()} vs {b2[first:first + 4].hex()}'
+    else:
+        where = f'character {first}'
+        detail = f'{b1[max(0, first - 20):first + 20]!r} vs {b2[max(0, first - 20):first + 20]!r}'
+    R.violation(sig, f'{what}: lengths {len(b1)} / {len(b2)}, first difference at {where}: {detail}')
+    return False
+
+
+def run_twice(case, seed, R):
+    shape = tuple(case['shape'])
+    w = case['writer']
+    fmt = 'codev' if w == 'codev' else 'zygo'
+    wvl = case.get('wvl', 1.0)
+    a = make_map(shape, case['v'], case['nan'], fmt, wvl, seed)      # pristine, never handed to the library
+    tol, step = tolerance(a, fmt, wvl)
+    what = f"{w} {shape} {case['v']}/{case['nan']}"
+    tmp = tempfile.mkdtemp(prefix='verif-c14-', dir='/tmp')
+    try:
+        ext = '.int' if fmt == 'codev' else '.dat'
+        p1, p2, p3 = (os.path.join(tmp, n + ext) for n in ('first', 'second', 'third'))
+        a_in = a.copy()
+        if w == 'zygo':
+            site = 'zygo_dat:write-twice'
+            dx = case['dx']
+            for p in (p1, p2):           # the SAME array object both times
+                if R.call(io.write_zygo_dat, p, a_in, dx, wavelength=wvl, sig=f'{site}:write:exception') is FAILED:
+                    return
+                unchanged(R, a_in, a, 'zygo_dat:write:caller-array-modified', what)
+            same_file(R, _bytes(p1), _bytes(p2), fmt, f'{site}:second-file-differs', what)
+            out = R.call(io.read_zygo_dat, p2, sig=f'{site}:read:exception')
+            if out is FAILED:
+                return
+            try:
+                b, rdx, rw = out['phase'], out['meta']['lateral_resolution'] * 1e3, out['meta']['wavelength'] * 1e6
+            except Exception as e:   # noqa
+                R.violation(f'{site}:type', f'{what}: reader result has no phase/meta ({type(e).__name__}: {e})')
+                return
+            judge_map(R, b, a, tol, site, what + ' (second file)')
+            judge_scalar(R, rdx, dx, 16 * EPS32, f'{site}:dx' + (':zero' if dx == 0 else ''), f'{what}: lateral resolution [mm]')
+            judge_scalar(R, rw, wvl, 16 * EPS32, f'{site}:wavelength', f'{what}: wavelength [um]')
+        elif w == 'ifg':
+            site = 'Interferogram.zygo_dat:write-twice'
+            dx = case['dx']
+            i1 = R.call(Interferogram, a_in, dx=dx, wavelength=wvl, sig=f'{site}:construct:exception')
+            if i1 is FAILED:
+                return
+            for p in (p1, p2):           # the SAME Interferogram both times
+                if R.call(i1.save_zygo_dat, p, sig=f'{site}:write:exception') is FAILED:
+                    return
+                unchanged(R, a_in, a, 'Interferogram.zygo_dat:write:caller-array-modified', what)
+                unchanged(R, getattr(i1, 'data', None), a, 'Interferogram.zygo_dat:write:data-modified', what + ' (.data of the saved object)')
+                judge_scalar(R, getattr(i1, 'dx', None), dx, 0, 'Interferogram.zygo_dat:write:dx-modified', what + ' (.dx of the saved object)')
+            same_file(R, _bytes(p1), _bytes(p2), fmt, f'{site}:second-file-differs', what)
+            i2 = R.call(Interferogram.from_zygo_dat, p2, sig=f'{site}:read:exception')
+            if i2 is FAILED:
+                return
+            try:
+                b, rdx, rw = i2.data, i2.dx, i2.wavelength
+            except Exception as e:   # noqa
+                R.violation(f'{site}:type', f'{what}: no data/dx/wavelength on the result ({type(e).__name__}: {e})')
+                return
+            judge_map(R, b, a, tol, site, what + ' (second file)')
+            judge_scalar(R, rdx, dx, 16 * EPS32, f'{site}:dx' + (':zero' if dx == 0 else ''), f'{what}: dx [mm]')
+            judge_scalar(R, rw, wvl, 16 * EPS32, f'{site}:wavelength', f'{what}: wavelength [um]')
+            # the loaded object saved again: the header (spacing, wavelength, sizes) must be the one first written,
+            # the samples may move by the one count the int32 truncation allows
+            site3 = 'Interferogram.zygo_dat:load-save'
+            if R.call(i2.save_zygo_dat, p3, sig=f'{site3}:write:exception') is FAILED:
+                return
+            same_file(R, _bytes(p1), _bytes(p3), fmt, f'{site3}:header-differs' + (':dx-zero' if dx == 0 else ''),
+                      what + ' (file written from the loaded Interferogram vs the first file)', header_only=True)
+            i3 = R.call(Interferogram.from_zygo_dat, p3, sig=f'{site3}:read:exception')
+            if i3 is FAILED:
+                return
+            judge_map(R, getattr(i3, 'data', None), a, 2 * tol, site3, what + ' (second generation)')
+            judge_scalar(R, getattr(i3, 'dx', None), dx, 16 * EPS32, f'{site3}:dx' + (':zero' if dx == 0 else ''), f'{what}: dx [mm], second generation')
+        else:
+            site = 'codev_gridint:write-twice'
+            for p in (p1, p2):
+                if R.call(io.write_codev_gridint, a_in, p, sig=f'{site}:write:exception') is FAILED:
+                    return
+                unchanged(R, a_in, a, 'codev_gridint:write:caller-array-modified', what)
+            same_file(R, _bytes(p1), _bytes(p2), fmt, f'{site}:second-file-differs', what)
+            out = R.call(io.read_codev_gridint, p2, sig=f'{site}:read:exception:{shape_class(shape)}')
+            if out is FAILED:
+                return
+            try:
+                b, meta = out
+            except Exception as e:   # noqa
+                R.violation(f'{site}:type', f'{what}: reader result is not (array, meta) ({type(e).__name__}: {e})')
+                return
+            judge_map(R, b, a, tol, site, what + ' (second file)')
+        R.nontrivial(True)
+        R.outcome('write-twice')
     finally:
         shutil.rmtree(tmp, ignore_errors=True)
 
@@ -512,15 +664,25 @@ def plan(tier, seed):
     shapes = SHAPES + SHAPES_MORE + (SHAPES_THOROUGH if tier == 'thorough' else [])
     zy, ifg, cv = [], [], []
     for shape, v, pat in _cells(shapes, VCLASSES, NANPATS):
-        for dx in DXS:
-            for wvl in WVLS:
+        for wvl in WVLS:
+            zero = tier == 'thorough' or wvl == WVLS[0]       # quick: the dx = 0 forms with one wavelength only
+            for dx in DXS + (DXS_ZERO if zero else []):
                 zy.append({'writer': 'zygo', 'shape': list(shape), 'v': v, 'nan': pat, 'dx': dx, 'wvl': wvl})
+            for dx in DXS + (DXS_ZERO + ['default'] if zero else []):
                 ifg.append({'writer': 'ifg', 'shape': list(shape), 'v': v, 'nan': pat, 'dx': dx, 'wvl': wvl})
+    for shape, v, pat in _cells(shapes, VCLASSES_CV, NANPATS):
         for typ in ('SUR', 'WFR'):
             for nnb in (0, 1):
                 cv.append({'writer': 'codev', 'shape': list(shape), 'v': v, 'nan': pat, 'typ': typ, 'nnb': nnb, 'comment': 'default'})
         for comment in ('', 'map 7 of lot B'):
             cv.append({'writer': 'codev', 'shape': list(shape), 'v': v, 'nan': pat, 'typ': 'SUR', 'nnb': 0, 'comment': comment})
+    tw2 = []
+    for shape, v, pat in _cells(SHAPES, VCLASSES_CV, NANPATS):
+        if v not in SAGS:
+            for dx in (0.5, 0):
+                tw2.append({'writer': 'zygo', 'shape': list(shape), 'v': v, 'nan': pat, 'dx': dx, 'wvl': 0.6328})
+                tw2.append({'writer': 'ifg', 'shape': list(shape), 'v': v, 'nan': pat, 'dx': dx, 'wvl': 0.6328})
+        tw2.append({'writer': 'codev', 'shape': list(shape), 'v': v, 'nan': pat})
     if tier == 'quick':
         tshapes, tv, tn, tw = SHAPES, ['mixed', 'pos', 'zero', 'outlier'], ['none', 'corner', 'checker', 'allbut1'], [0.6328]
     else:
@@ -536,15 +698,21 @@ def plan(tier, seed):
              f'x NaN patterns {NANPATS} (degenerate shape/pattern pairs dropped)')
     return [
         ScopeUnit('rt_zygo', zy, run_roundtrip,
-                  f'{cells} x dx {DXS} x wavelength {WVLS}: io.write_zygo_dat -> io.read_zygo_dat; shape, orientation, NaN set, '
+                  f'{cells} x dx {DXS + DXS_ZERO} (0 = uncalibrated, must come back exactly 0) x wavelength {WVLS}: io.write_zygo_dat -> io.read_zygo_dat; the array passed in must be bit-identical after the write; shape, orientation, NaN set, '
                   '|a-b| <= wavelength/32768 (+4 eps32 |a|), dx and wavelength at float32 precision; non-trivial unless the map is all-zero without NaN',
                   reset=_reset),
         ScopeUnit('rt_interferogram', ifg, run_roundtrip,
-                  f'same cells x dx x wavelength through Interferogram(...).save_zygo_dat -> Interferogram.from_zygo_dat (.data, .dx, .wavelength)',
+                  f'same cells x dx {DXS + DXS_ZERO + ["default (omitted)"]} x wavelength through Interferogram(...).save_zygo_dat -> Interferogram.from_zygo_dat (.data, .dx, .wavelength); '
+                  'the array handed to the constructor and .data of the saved object must be unchanged by the save',
                   reset=_reset),
         ScopeUnit('rt_codev', cv, run_roundtrip,
-                  f'{cells} x typ {{SUR,WFR}} x nnb {{F,T}} plus comment {{"", custom}}: io.write_codev_gridint -> io.read_codev_gridint; '
+                  f'{cells} plus large-sag classes {SAGS} nm (value alphabet, positive bowl) x typ {{SUR,WFR}} x nnb {{F,T}} plus comment {{"", custom}}: io.write_codev_gridint -> io.read_codev_gridint; '
                   '|a-b| <= max|a|/32767', reset=_reset),
+        ScopeUnit('hist_write_twice', tw2, run_twice,
+                  f'histories of depth 2-4 on one object: shapes {SHAPES} x value classes x NaN patterns x dx {{0.5, 0}} x writer {{write_zygo_dat, Interferogram, write_codev_gridint}}: '
+                  'write, write the SAME array / Interferogram again, read the second file: the second file equals the first byte for byte (Zygo timestamp field apart), '
+                  'the caller\'s array / .data / .dx are unchanged after each write, the second file reads back as the pristine map; Interferogram additionally '
+                  'load -> save -> load: header identical to the first file, dx kept (0 stays 0), map within 2 steps', reset=_reset),
         ScopeUnit('trunc_zygo', tz, run_trunc,
                   f'files of <= 20 samples: shapes {[tuple(s) for s in tshapes]} x {tv} x {tn} x wavelength {tw}; EVERY byte cut of the int32 block '
                   '(keep 0..4N-1 bytes) through io.read_zygo_dat: exception, or warning + incomplete samples NaN + complete samples equal to the untruncated read',
